@@ -23,6 +23,47 @@ def split_line(l):
 
 SAFE = ("T", "A=", "A")
 
+FIELDS = {0: "pre_ints", 1: "ser_ver", 2: "family", 3: "lg_k", 4: "lg_arr", 5: "flags", 7: "mode"}
+
+
+def field_name(cls, pos):
+    """name of the preamble field that byte `pos` belongs to (documented layout)"""
+    if pos in FIELDS:
+        return FIELDS[pos]
+    if pos == 6:
+        return "count" if cls == "list" else ("unused6" if cls == "set" else "cur_min")
+    if cls == "set" and 8 <= pos < 12:
+        return "count"
+    if cls.startswith("hll"):
+        for lo, hi, nm in ((8, 16, "hip"), (16, 24, "kxq0"), (24, 32, "kxq1"), (32, 36, "num_at_cur_min"), (36, 40, "aux_count")):
+            if lo <= pos < hi:
+                return nm
+    return "byte%d" % pos
+
+
+def norm_outcome(o):
+    """stable signature of a safety outcome: sanitizer class + kind + first library frame (no addresses / numbers)"""
+    site = ""
+    if "@" in o:
+        o, site = o.split("@", 1)
+        site = "@" + site
+    extra = ""
+    if "+" in o:
+        o, extra = o.split("+", 1)
+        extra = "+" + extra
+    if o.startswith("ubsan:"):
+        m = o[6:]
+        for pat, nm in (("shift_exponent", "shift-exponent"), ("left_shift_of", "left-shift-overflow"), ("misaligned", "misaligned-access"),
+                        ("null_pointer", "null-pointer"), ("downcast_of", "bad-downcast"), ("signed_integer_overflow", "signed-overflow"), ("out_of_bounds", "index-out-of-bounds"),
+                        ("not_a_valid_value", "invalid-enum-or-bool-load"), ("outside_the_range", "float-cast-overflow")):
+            if pat in m:
+                m = nm
+                break
+        o = "ubsan-" + m
+    elif o.startswith("asan:"):
+        o = "asan-" + o[5:]
+    return o + extra + site
+
 
 class HllC11(W.WirePart):
     name = "hll"
@@ -32,7 +73,7 @@ class HllC11(W.WirePart):
                           corrupt_accept=0, corrupt_throw=0, corrupt_unsafe=0)
 
     def generate(self, rng, tier):
-        nh = 24 if tier == "quick" else 240
+        nh = 20 if tier == "quick" else 200
         hs = []
         for i in range(nh):
             h = []
@@ -41,9 +82,11 @@ class HllC11(W.WirePart):
             h += L
             h.append("pfx 0 c")
             h.append("pfx 0 u")
-            # corruption: every preamble byte x 8 replacement values x 2 paths (forks per sanitizer abort: fewer images)
-            if tier != "quick" or i % 2 == 0:
-                h.append("cor 0 %s" % ("c" if (i // 2) % 2 == 0 else "u"))
+            # corruption: every preamble byte x 8 replacement values x 2 paths; every state class gets both kinds
+            if tier == "quick":
+                h.append("cor 0 %s" % ("c" if (i // len(W.CLASSES)) % 2 == 0 else "u"))
+            else:
+                h += ["cor 0 c", "cor 0 u"]
             hs.append(h)
         return hs
 
@@ -78,7 +121,11 @@ class HllC11(W.WirePart):
                             bad.append(("hll/%s/prefix/accepts-with-different-content/%s-%s" % (path, cls, kind),
                                         "prefix %d of %d yields another sketch" % (n, len(img)), i))
                             continue
-                        bad.append(("hll/%s/prefix/%s" % (path, o), "prefix length %d of %d (%s %s)" % (n, len(img), cls, kind), i))
+                        no = norm_outcome(o)
+                        key = "hll/%s/prefix/%s" % (path, no)
+                        if "@" not in no:
+                            key += "/%s-%s" % (cls, kind)
+                        bad.append((key, "prefix length %d of %d (%s %s): %s" % (n, len(img), cls, kind, o), i))
             elif l.startswith("COR "):
                 kind, hx, f = split_line(l)
                 cls = hex_class(hx)
@@ -87,10 +134,11 @@ class HllC11(W.WirePart):
                     for item in b.split(","):
                         pos, val, path, o = item.split(":", 3)
                         pathn = "bytes" if path == "b" else "stream"
-                        key = "hll/%s/corrupt/%s" % (pathn, o)
-                        if "@" not in o:
-                            key += "/%s-%s-byte%s" % (cls, kind, pos)
-                        bad.append((key, "byte %s := 0x%s of a %s %s image" % (pos, val, cls, kind), i))
+                        no = norm_outcome(o)
+                        key = "hll/%s/corrupt/%s" % (pathn, no)
+                        if "@" not in no:
+                            key += "/%s-%s.%s" % (cls, kind, field_name(cls, int(pos)))
+                        bad.append((key, "byte %s (%s) := 0x%s of a %s %s image: %s" % (pos, field_name(cls, int(pos)), val, cls, kind, o), i))
         # one entry per key and line
         seen, out = set(), []
         for k, w, i in bad:
